@@ -398,7 +398,7 @@ Fixpoint nullable (r : re) : bool :=
 
 (* pattern shapes for which today's translation is proved exact (RegexProofs.v): a pure literal; an expression without
    position assertions that can match the empty string (it matches everything); ^literal; ^(lit|lit|...)$ *)
-Inductive shape := ShLiteral | ShMatchAll | ShBeginLiteral | ShOther.
+Inductive shape := ShLiteral | ShMatchAll | ShBeginLiteral | ShAnchoredAlt | ShOther.
 Definition as_literal (r : re) : option (list N) :=
   match r with RLit false (c :: l) => Some (c :: l) | _ => None end.
 Definition as_begin_literal (r : re) : option (list N) :=
@@ -406,12 +406,36 @@ Definition as_begin_literal (r : re) : option (list N) :=
   | RConcat [RBeginText; b] => match as_literal b with Some l => if plainb l then Some l else None | None => None end
   | _ => None
   end.
+Fixpoint lits_of (l : list re) : option (list (list N)) :=
+  match l with
+  | [] => Some []
+  | RLit false (c :: x) :: t => match lits_of t with Some r => Some ((c :: x) :: r) | None => None end
+  | _ => None
+  end.
+Definition alt_inner (r : re) : option (list re) :=
+  match r with RCapture (RAlt l) => Some l | RAlt l => Some l | _ => None end.
+(* ^(lit|lit|...)$ or ^(?:lit|lit|...)$ with 2..20 non-empty literals free of the bytes 0-2 *)
+Definition as_anchored_alt (r : re) : option (list (list N)) :=
+  match r with
+  | RConcat [RBeginText; inner; REndText] =>
+      match alt_inner inner with
+      | Some l => match lits_of l with
+                  | Some ls => if (2 <=? length ls) && (length ls <=? max_or_values) && forallb plainb ls then Some ls else None
+                  | None => None
+                  end
+      | None => None
+      end
+  | _ => None
+  end.
 Definition shape_of (r : re) : shape :=
   match as_literal r with
   | Some _ => ShLiteral
   | None => match as_begin_literal r with
             | Some _ => ShBeginLiteral
-            | None => if negb (has_assert r) && nullable r then ShMatchAll else ShOther
+            | None => match as_anchored_alt r with
+                      | Some _ => ShAnchoredAlt
+                      | None => if negb (has_assert r) && nullable r then ShMatchAll else ShOther
+                      end
             end
   end.
 Definition exact_shape (r : re) : bool := match shape_of r with ShOther => false | _ => true end.
